@@ -224,6 +224,43 @@ def wf_fan(k: int, w: int, retry: str | None = None, fail_uids: tuple[int, ...] 
     ])
 
 
+def wf_retry_timebound() -> type:
+    """a step under a TIME-bounded retry policy (stop_after_delay 2.5 s, 1 s apart) fails twice and then succeeds, while another step
+    keeps the run going until t = 5 s: state rebuilt from the tick log later than the policy's window must still say what the live
+    run says (the reducer may only use what the ticks carry, not the time of the replay)"""
+    import asyncio as _aio
+
+    from workflows.retry_policy import stop_after_delay
+
+    async def start(self, ctx, ev, inv):  # noqa: ANN001
+        ctx.send_event(Work(uid=0))
+        ctx.send_event(A(uid=1))
+        return None
+
+    async def work(self, ctx, ev, inv):  # noqa: ANN001
+        if inv.retry.retry_number < 2:
+            raise RuntimeError(f"boom{inv.retry.retry_number}")
+        return Done(uid=0)
+
+    async def hold(self, ctx, ev, inv):  # noqa: ANN001
+        await _aio.sleep(5.0)
+        await gate("hold")
+        return Done(uid=1)
+
+    async def fin(self, ctx, ev, inv):  # noqa: ANN001
+        r = ctx.collect_events(ev, [Done] * 2)
+        if r is None:
+            return None
+        return StopEvent(result=sorted(e.uid for e in r))
+
+    return make_workflow("RetryTimebound", [
+        make_step("start", [StartEvent], [Work, A, None], start),
+        make_step("work", [Work], [Done], work, retry_policy=retry_policy(wait=wait_fixed(1), stop=stop_after_delay(2.5))),
+        make_step("hold", [A], [Done], hold),
+        make_step("fin", [Done], [StopEvent, None], fin, num_workers=1),
+    ])
+
+
 def wf_chain(n: int, gated: bool = True) -> type:
     """start -> s1 -> ... -> sn -> stop, one event each"""
     evs = [A, B, C][:n]
@@ -500,6 +537,11 @@ def catalog(tier: str) -> list[Spec]:
                            (lambda k=k, w=w, retry=retry: wf_fan(k, w, retry, fail_uids=(0, 1))),
                            min_concurrency=min(k, w), tags=("retry", retry)))
     # three wake-ups pending at once: the workflow timeout and two retry delays that end at different times
+    sp.append(Spec("retry_timebound_then_late_timer", {}, wf_retry_timebound, tags=("retry", "delay")))
+    # a retry delay is pending while a sibling's completion starts a NEW (gated) worker: the timer can come due in the very wait that
+    # started that worker, before anything completes
+    sp.append(Spec("fan_retry_gatefin(k=2,w=2,delay)", {"k": 2, "w": 2, "retry": "delay"}, lambda: wf_fan(2, 2, "delay", fail_uids=(0,), gate_fin=True),
+                   max_dev=(4 if q else 6), tags=("fan", "retry", "delay")))
     sp.append(Spec("fan_retry_stagger_timeout(k=2,w=2)", {"k": 2, "w": 2, "timeout": 50.0},
                    lambda: wf_fan(2, 2, "delay", fail_uids=(0, 1), stagger=0.5), wf_kw={"timeout": 50.0},
                    max_dev=(4 if q else 6), tags=("retry", "delay", "timeout")))
